@@ -44,8 +44,25 @@ class GetNotes(Stream):
     def impl(self, case):
         def f():
             sc = sg.mk_rscore(case["score"])
-            return {"rows": sg.impl_rows(sc), "duration": F(sc.duration),
-                    "tracks": [nm for nm in dict.fromkeys(nm for c in case["score"] for nm, _ in c["parts"])]}
+            out = {"rows": sg.impl_rows(sc), "duration": F(sc.duration),
+                   "tracks": [nm for nm in dict.fromkeys(nm for c in case["score"] for nm, _ in c["parts"])]}
+            # a score object that has already been rendered and measured, then edited with the in-place forms
+            # (chord.score[part] = melody, score[i] = chord), renders like the same score built from scratch
+            js = case["score"]
+            nm0, notes0 = js[0]["parts"][0]
+            longer = [dict(n, dur=F(n["dur"]) * 3) for n in notes0]
+            edited = [dict(js[0], parts=[[nm0, longer]] + js[0]["parts"][1:])] + js[1:]
+            fresh = sg.mk_rscore(edited)
+            warm = sg.mk_rscore(js)
+            _ = sg.impl_rows(warm), warm.duration, [c.duration for c in warm.chords]
+            warm.chords[0].score[nm0] = fresh.chords[0].score[nm0].copy()
+            warm2 = sg.mk_rscore(js)
+            _ = sg.impl_rows(warm2), warm2.duration, [c.duration for c in warm2.chords]
+            warm2[0] = fresh.chords[0].copy()
+            want = sg.impl_rows(fresh)
+            out["stale"] = [sg.impl_rows(warm) == want and F(warm.duration) == F(fresh.duration),
+                            sg.impl_rows(warm2) == want and F(warm2.duration) == F(fresh.duration)]
+            return out
         return mlang.guarded(f)
 
     def term(self, case, r):
@@ -67,6 +84,9 @@ class GetNotes(Stream):
         tot = sum((max([sum(F(n['dur']) for n in notes) for _, notes in c['parts']], default=F(0)) for c in case["score"]), F(0))
         if r["duration"] != tot:
             return {"sig": "score-duration", "msg": f"{r['duration']} vs {tot}"}
+        if not all(r["stale"]):
+            how = "chord.score[part] = melody" if not r["stale"][0] else "score[i] = chord"
+            return {"sig": "rendering-stale-after-in-place-edit", "msg": f"after {how} on a score that had been rendered, the rendering differs from the same score built from scratch"}
         return None
 
     def nontrivial(self, case, r):
